@@ -36,6 +36,9 @@ class VClock:
         self.base = start_utc.replace(tzinfo=UTC) if start_utc.tzinfo is None else start_utc
         self.tick = tick
         self.tz = None  # set after HA chose its zone
+        # injected fault: the wall clock (what pyscript's dt_now() reads) runs slower (skew > 0) or faster (skew < 0)
+        # than the monotonic clock that drives the event loop's timers, as it does while NTP slews the clock
+        self.skew = 0.0
 
     def monotonic(self) -> float:
         return self.t
@@ -45,9 +48,19 @@ class VClock:
         return self.t - self.t0
 
     def utc(self) -> dt.datetime:
-        return self.base + dt.timedelta(seconds=self.t - self.t0)
+        return self.base + dt.timedelta(seconds=(self.t - self.t0) * (1.0 - self.skew))
+
+    def utc_at(self, off: float) -> dt.datetime:
+        """Wall-clock UTC at monotonic offset `off` (the `t` of a record)."""
+        return self.base + dt.timedelta(seconds=off * (1.0 - self.skew))
 
     def local_naive(self) -> dt.datetime:
+        if self.skew:
+            # part of the two-clock fault model: reading the clock takes time.  Without this the virtual clock stands
+            # still during synchronous code, and a trigger that woke up 1 us before its instant (which the code tolerates,
+            # datetime.now() truncates) would read the same microsecond again after dispatching - something real hardware
+            # cannot do, and a false alarm the first run of this fault model raised (DESIGN 6.3)
+            self.t += 2e-6
         return self.utc().astimezone(self.tz).replace(tzinfo=None)
 
     def utc_of_local_naive(self, naive: dt.datetime) -> dt.datetime:
@@ -184,6 +197,7 @@ class World:
         webhook: bool = False,
         debug_ctx_loggers: bool = True,
         extra_functions: dict | None = None,
+        skew: float = 0.0,
     ):
         self.files = dict(files or {})
         self.legacy = legacy
@@ -191,6 +205,7 @@ class World:
         if legacy:
             self.config["legacy_decorators"] = True
         self.clock = VClock(start, tick)
+        self.clock.skew = skew
         self.use_mqtt = mqtt
         self.use_webhook = webhook
         self.debug_ctx_loggers = debug_ctx_loggers
